@@ -6,8 +6,11 @@
    (FOk) or returning to the caller of the current activation (FRet). *)
 Require Import DS.Base DS.FlowTables DS.FlowTablesWf DS.FlowScan DS.Flow DS.FlowTree DS.FlowScanProof
   DS.FlowLemmas DS.FlowFrame DS.FlowFn DS.FlowFnTree DS.FlowFnScan DS.FlowFnLemmas.
+Require DS.FlowSim.
 Require Import DSG.GenFlowNames DSG.GenFnNames.
 Open Scope nat_scope.
+Notation set_ifstk_push := FlowSim.set_ifstk_push.
+Notation nth_error_mid1 := FlowSim.nth_error_mid1.
 
 (* ---- no return inside a for-in body -------------------------------------------------------------- *)
 Fixpoint nfr_s (s : fstmt) : bool :=
@@ -513,22 +516,37 @@ Proof.
   rewrite (fdisp_base P); [reflexivity| |eexists; reflexivity].
   exists sp. auto.
 Qed.
-Ltac kwn := unfold kw_names; repeat (first [apply in_or_app; left; assumption | apply in_or_app; right]); try assumption.
-
+Lemma kw_in_0 c : In c n_if -> In c kw_names.
+Proof. intros H. unfold kw_names. apply in_or_app; left. exact H. Qed.
+Lemma kw_in_1 c : In c n_elseif -> In c kw_names.
+Proof. intros H. unfold kw_names. do 1 (apply in_or_app; right). apply in_or_app; left. exact H. Qed.
+Lemma kw_in_2 c : In c n_else -> In c kw_names.
+Proof. intros H. unfold kw_names. do 2 (apply in_or_app; right). apply in_or_app; left. exact H. Qed.
+Lemma kw_in_3 c : In c n_endif -> In c kw_names.
+Proof. intros H. unfold kw_names. do 3 (apply in_or_app; right). apply in_or_app; left. exact H. Qed.
+Lemma kw_in_4 c : In c n_while -> In c kw_names.
+Proof. intros H. unfold kw_names. do 4 (apply in_or_app; right). apply in_or_app; left. exact H. Qed.
+Lemma kw_in_5 c : In c n_endwhile -> In c kw_names.
+Proof. intros H. unfold kw_names. do 5 (apply in_or_app; right). apply in_or_app; left. exact H. Qed.
+Lemma kw_in_6 c : In c n_for -> In c kw_names.
+Proof. intros H. unfold kw_names. do 6 (apply in_or_app; right). apply in_or_app; left. exact H. Qed.
+Lemma kw_in_7 c : In c n_endfor -> In c kw_names.
+Proof. intros H. unfold kw_names. do 7 (apply in_or_app; right). exact H. Qed.
+Ltac kwn := first [apply kw_in_0; assumption|apply kw_in_1; assumption|apply kw_in_2; assumption|apply kw_in_3; assumption|apply kw_in_4; assumption|apply kw_in_5; assumption|apply kw_in_6; assumption|apply kw_in_7; assumption].
 Lemma fcl_endif_name : classify_fn gen_endif_name = FKBase KEndIf.
 Proof.
   assert (H : In gen_endif_name n_endif) by apply name_in_names.
-  destruct (kw_names_base gen_endif_name) as (E & _); [kwn|]. rewrite E, (cl_endif TW _ H). reflexivity.
+  destruct (kw_names_base gen_endif_name) as (E & _); [|rewrite E, (cl_endif TW _ H); reflexivity]. kwn.
 Qed.
 Lemma fcl_endwhile_name : classify_fn gen_endwhile_name = FKBase KEndWhile.
 Proof.
   assert (H : In gen_endwhile_name n_endwhile) by apply name_in_names.
-  destruct (kw_names_base gen_endwhile_name) as (E & _); [kwn|]. rewrite E, (cl_endwhile TW _ H). reflexivity.
+  destruct (kw_names_base gen_endwhile_name) as (E & _); [|rewrite E, (cl_endwhile TW _ H); reflexivity]. kwn.
 Qed.
 Lemma fcl_endfor_name : classify_fn gen_endfor_name = FKBase KEndFor.
 Proof.
   assert (H : In gen_endfor_name n_endfor) by apply name_in_names.
-  destruct (kw_names_base gen_endfor_name) as (E & _); [kwn|]. rewrite E, (cl_endfor TW _ H). reflexivity.
+  destruct (kw_names_base gen_endfor_name) as (E & _); [|rewrite E, (cl_endfor TW _ H); reflexivity]. kwn.
 Qed.
 Lemma fclose_if l e w f g : In e (closers CkIf) -> aget Nat.eqb l (f_end f) = Some gen_endif_name ->
   fstep P l (bkw e ANone) (w, f, g) = (RContinue, (w, f, g)).
@@ -560,15 +578,22 @@ Lemma res_eta (r : fres) :
 Proof. destruct r; reflexivity. Qed.
 
 (* run a body placed inside [p, q), then go on *)
+Lemma post_runs c0 c1 R q f g r : fruns P c0 c1 -> post c1 R q f g r -> post c0 R q f g r.
+Proof.
+  intros Hr. destruct r as [w'|v w'| |]; cbn; auto.
+  - intros (f' & H1 & H2 & H3). exists f'. split; [eapply fruns_trans; eauto|auto].
+  - intros (ci & rest & f' & H0 & H1 & H2 & H3). exists ci, rest, f'.
+    split; [exact H0|]. split; [eapply fruns_trans; eauto|auto].
+Qed.
 Lemma post_bind_in c0 c1 (Rin R : nat -> Prop) a q f f2 g r (k : world -> fres) :
   fruns P c0 c1 -> gframe R f f2 -> (forall l, Rin l -> R l) ->
   post c1 Rin a f2 g r ->
-  (forall w1 f3, Inv P0 f3 -> gframe Rin f2 f3 -> post (a, (w1, f3, g)) R q f3 g (k w1)) ->
+  (forall w1 f3, Inv P0 f3 -> gframe Rin f2 f3 -> gframe R f f3 -> post (a, (w1, f3, g)) R q f g (k w1)) ->
   post c0 R q f g (match r with FOk w1 => k w1 | FRet v w0 => FRet v w0 | FErr => FErr | FFuel => FFuel end).
 Proof.
   intros Hr HF Hsub Hp Hk. destruct r as [w1|v w'| |]; cbn [post] in *; auto.
   - destruct Hp as (f3 & R3 & I3 & F3).
-    eapply post_pre; [eapply fruns_trans; [exact Hr|exact R3]| |apply Hk; auto].
+    eapply post_runs; [eapply fruns_trans; [exact Hr|exact R3]|]. apply Hk; auto.
     eapply gframe_trans; [exact HF|eapply gframe_weaken; [exact Hsub|exact F3]].
   - destruct Hp as (ci & rest & f3 & E & R3 & I3 & F3). exists ci, rest, f3.
     split; [exact E|]. split; [eapply fruns_trans; eauto|]. split; [exact I3|].
@@ -577,11 +602,399 @@ Qed.
 Lemma post_then c0 c1 (Rin R : nat -> Prop) a q f f2 g r :
   fruns P c0 c1 -> gframe R f f2 -> (forall l, Rin l -> R l) ->
   post c1 Rin a f2 g r ->
-  (forall w1 f3, Inv P0 f3 -> gframe Rin f2 f3 ->
-     exists f', fruns P (a, (w1, f3, g)) (q, (w1, f', g)) /\ Inv P0 f' /\ gframe R f3 f') ->
+  (forall w1 f3, Inv P0 f3 -> gframe Rin f2 f3 -> gframe R f f3 ->
+     exists f', fruns P (a, (w1, f3, g)) (q, (w1, f', g)) /\ Inv P0 f' /\ gframe R f f') ->
   post c0 R q f g r.
 Proof.
   intros Hr HF Hsub Hp Hk. rewrite <- (res_eta r).
   eapply (post_bind_in c0 c1 Rin R a q f f2 g r (fun w1 => FOk w1)); eauto.
+Qed.
+
+(* ---- if ---------------------------------------------------------------------------------------------- *)
+Definition chain_ok (n : nat) : Prop := forall lo infn els w L e m pfx p0 fb g,
+  els <> HNil -> pge (callable_at lo) infn els -> nfr_e els = true -> In e (closers CkIf) ->
+  fplaced P L (ge els ++ [bkw e ANone]) ->
+  im_else m = pfx ++ gmid_pos els L -> im_end m = L + length (ge els) ->
+  (forall x, In x (im_else m) -> p0 <= x < S (im_end m)) ->
+  ready lo infn p0 (S (im_end m)) fb g ->
+  aget Nat.eqb (im_end m) (f_end fb) = Some gen_endif_name ->
+  post (L, (w, if_push (mkIC L false (length pfx) m) fb, g)) (Rl p0 (S (im_end m)) lo) (S (im_end m)) fb g
+       (he ds n els w).
+
+(* an else / elseif line reached by falling out of a taken branch *)
+Lemma felse_passed r infn lo L rest w f g J i m base :
+  r <> HNil -> pge (callable_at lo) infn r -> fplaced P L (ge r ++ rest) ->
+  f_ifstk f = J ++ mkIC L true i m :: base -> Forall (fun x => ic_current x <> L) J ->
+  fstep1 P (L, (w, f, g)) = Some (S (im_end m), (w, set_ifstk base f, g)).
+Proof.
+  intros Hr Hw Hp Hs HJ. destruct r as [|sp c b r|sp b]; [congruence| |].
+  - cbn [ge app] in Hp. destruct Hw as (Hsp & _).
+    eapply fstep1_goto; [eapply fplaced_nth; exact Hp|]. rewrite fstep_kw by kwn.
+    unfold P0. rewrite (disp_elseif (map down P) TW) by exact Hsp. unfold step_elseif.
+    rewrite Hs, if_pop_junk by (auto; reflexivity). reflexivity.
+  - cbn [ge app] in Hp. destruct Hw as (Hsp & _).
+    eapply fstep1_goto; [eapply fplaced_nth; exact Hp|]. rewrite fstep_kw by kwn.
+    unfold P0. rewrite (disp_else (map down P) TW) by exact Hsp. unfold step_else.
+    rewrite Hs, if_pop_junk by (auto; reflexivity). reflexivity.
+Qed.
+
+Lemma EndInv_same f f' : f_end f' = f_end f -> EndInv f -> EndInv f'.
+Proof. unfold EndInv. intros ->. auto. Qed.
+
+Lemma gif_case n : block_ok n -> chain_ok n -> forall lo infn sp c b els e w p f g,
+  pgs (callable_at lo) infn (GIf sp c b els e) -> nfr_s (GIf sp c b els e) = true ->
+  fplaced P p (gs (GIf sp c b els e)) ->
+  ready lo infn p (p + length (gs (GIf sp c b els e))) f g ->
+  post (p, (w, f, g)) (Rl p (p + length (gs (GIf sp c b els e))) lo)
+       (p + length (gs (GIf sp c b els e))) f g (hs ds (S n) (GIf sp c b els e) w).
+Proof.
+  intros Hb Hch lo infn sp c b els e w p f g Hw Hn Hp Hr.
+  pose proof (gif_meta_placed P TW (callable_at lo) infn p sp c b els e Hp Hw) as Hm. fold P0 in Hm.
+  destruct Hw as (Hsp & He & Hwb & Hwe).
+  cbn [nfr_s] in Hn. apply andb_prop in Hn. destruct Hn as (Hnb & Hne).
+  assert (Hq : p + length (gs (GIf sp c b els e)) = S (S p + length (gb b) + length (ge els))).
+  { cbn [gs length]. rewrite !app_length. cbn [length]. lia. }
+  rewrite Hq in *. clear Hq.
+  set (nb := length (gb b)) in *. set (ne := length (ge els)) in *.
+  set (E := S p + nb + ne) in *.
+  set (m := mkIM p E (gmid_pos els (S p + nb))) in *.
+  set (R := Rl p (S E) lo).
+  pose proof Hr as (HloM & Hsep & Hnde & HI & HE & HF & Hfo & Hact).
+  cbn [gs] in Hp.
+  pose proof (fplaced_nth _ _ _ _ Hp) as Hn0.
+  pose proof (fplaced_tail _ _ _ _ Hp) as Hp1.
+  pose proof (fplaced_app_l _ _ _ _ Hp1) as Hpb.
+  pose proof (fplaced_app_r _ _ _ _ Hp1) as Hpe. fold nb in Hpe.
+  pose proof (fplaced_app_r _ _ _ _ Hpe) as Hpend. fold ne in Hpend.
+  pose proof (fplaced_nth _ _ _ _ Hpend) as HnE. fold E in HnE.
+  destruct (if_meta_info_ok P0 f p m HI Hm) as (f1 & Hmi & I1 & SS1 & E1).
+  pose proof SS1 as (S1a & S1b & S1c).
+  assert (HRE : R E) by (apply Rl_in; [exact Hnde|lia]).
+  assert (HE1 : aget Nat.eqb E (f_end f1) = Some gen_endif_name)
+    by (rewrite E1; apply aget_aset_same).
+  assert (Fr1 : gframe R f f1) by (eapply gframe_meta; eauto).
+  assert (HEI1 : EndInv f1) by (eapply EndInv_gframe; eauto).
+  assert (Hstep : fstep P p (bkw sp (ACond c)) (w, f, g) = lift g (step_if P0 p c (w, f))).
+  { rewrite fstep_kw by kwn. unfold P0. rewrite (disp_if (map down P) TW) by exact Hsp. reflexivity. }
+  rewrite hs_if. destruct (eval_cond c w) as [v w1] eqn:Ec.
+  assert (Hsub : forall l, Rl (S p) (S p + nb) lo l -> R l) by (intros l; apply Rl_sub; lia).
+  destruct v.
+  - (* the condition holds: run the body *)
+    set (next := match im_else m with [] => im_end m | l0 :: _ => l0 end).
+    set (f2 := if_push (mkIC next true 0 m) f1).
+    assert (St : fstep1 P (p, (w, f, g)) = Some (S p, (w1, f2, g))).
+    { eapply fstep1_continue; [exact Hn0|]. rewrite Hstep. unfold step_if. rewrite Hmi, Ec. reflexivity. }
+    assert (Hnext : p <= next < S E).
+    { unfold next, m. cbn [im_else im_end]. destruct (gmid_pos els (S p + nb)) as [|l0 t] eqn:Eg; [lia|].
+      assert (Hin : In l0 (gmid_pos els (S p + nb))) by (rewrite Eg; now left).
+      apply gmid_pos_range in Hin. fold ne in Hin. lia. }
+    assert (Fr2 : gframe R f f2).
+    { apply (gframe_intro R f f2 [mkIC next true 0 m] []).
+      - cbn. now rewrite S1a.
+      - constructor; [|constructor]. split; [apply Rl_in; [exact Hnde|exact Hnext]|reflexivity].
+      - cbn. now rewrite S1b.
+      - constructor.
+      - cbn. exact S1c.
+      - intros l Hl. cbn. exact (gf_end _ _ _ Fr1 l Hl). }
+    assert (I2 : Inv P0 f2) by (eapply Inv_same; [| | |exact I1]; reflexivity).
+    assert (Hready2 : ready lo infn (S p) (S p + nb) f2 g).
+    { apply (ready_sub lo infn p (S E) (S p) (S p + nb) f f2 g Hr); try lia.
+      - exact I2.
+      - eapply EndInv_same; [|exact HEI1]. reflexivity.
+      - eapply fout_sub; try exact Hfo; try lia. cbn. exact S1c. }
+    pose proof (Hb lo infn b w1 (S p) f2 g Hwb Hnb Hpb Hready2) as IH. fold nb in IH.
+    apply (post_then (p, (w, f, g)) (S p, (w1, f2, g)) (Rl (S p) (S p + nb) lo) R (S p + nb) (S E) f f2 g);
+      [apply fruns_step; exact St|exact Fr2|exact Hsub|exact IH|].
+    intros w' f3 I3 F3 F3'.
+    destruct (gf_if _ _ _ F3) as (Jb & Ei & Fi). cbn [f2 if_push f_ifstk set_ifstk] in Ei.
+    destruct (gf_wh _ _ _ F3') as (Jw & Ew & Fw).
+    assert (HnRin : forall L, S p + nb <= L -> L <= E -> ~ Rl (S p) (S p + nb) lo L).
+    { intros L H1 H2 [[H3|H3] _]; [lia|]. destruct Hsep as [Hs|Hs]; lia. }
+    assert (HE3 : aget Nat.eqb E (f_end f3) = Some gen_endif_name).
+    { rewrite (gf_end _ _ _ F3); [exact HE1|]. apply HnRin; lia. }
+    destruct (felses_dec els) as [Eels|Hnel].
+    + (* no else line: fall on the end line; the entry stays as junk *)
+      assert (ne = 0) by (unfold ne; rewrite Eels; reflexivity). assert (E = S p + nb) by lia.
+      exists f3. split; [|split; [exact I3|exact F3']].
+      apply fruns_step. replace (S p + nb) with E by lia.
+      eapply fstep1_continue; [exact HnE|]. now apply fclose_if.
+    + (* an else / elseif line follows: it pops the entry and jumps behind the block *)
+      destruct (gmid_pos_hd els (S p + nb) Hnel) as (t & Ht0).
+      assert (Hnx : next = S p + nb) by (unfold next, m; cbn [im_else]; now rewrite Ht0).
+      rewrite Hnx in Ei.
+      exists (set_ifstk (f_ifstk f1) f3). split; [|split].
+      * apply fruns_step.
+        rewrite (felse_passed els infn lo (S p + nb) [bkw e ANone] w' f3 g Jb 0 m (f_ifstk f1) Hnel Hwe Hpe Ei).
+        -- reflexivity.
+        -- eapply junk_ne_if; [exact Fi|]. apply HnRin; lia.
+      * eapply Inv_same; [| | |exact I3]; reflexivity.
+      * apply (gframe_intro R f _ [] Jw).
+        -- cbn. exact S1a.
+        -- constructor.
+        -- cbn. exact Ew.
+        -- exact Fw.
+        -- cbn. exact (gf_for _ _ _ F3').
+        -- intros l Hl. cbn. exact (gf_end _ _ _ F3' l Hl).
+  - (* the condition fails *)
+    destruct (felses_dec els) as [Eels|Hnel].
+    + rewrite Eels. destruct n as [|n']; [exact I|]. rewrite he_nil.
+      exists f1. split; [|split; [exact I1|exact Fr1]].
+      apply fruns_step. eapply fstep1_goto; [exact Hn0|]. rewrite Hstep.
+      unfold step_if. rewrite Hmi, Ec. unfold m at 1. cbn [im_else]. rewrite Eels. reflexivity.
+    + destruct (gmid_pos_hd els (S p + nb) Hnel) as (t & Ht0).
+      assert (St : fstep1 P (p, (w, f, g)) = Some (S p + nb, (w1, if_push (mkIC (S p + nb) false 0 m) f1, g))).
+      { eapply fstep1_goto; [exact Hn0|]. rewrite Hstep.
+        unfold step_if. rewrite Hmi, Ec. unfold m at 1. cbn [im_else]. rewrite Ht0. reflexivity. }
+      eapply post_pre; [apply fruns_step; exact St|exact Fr1|].
+      apply (Hch lo infn els w1 (S p + nb) e m [] p f1 g Hnel Hwe Hne He Hpe eq_refl eq_refl).
+      * intros x Hx. cbn [m im_else im_end] in *. apply gmid_pos_range in Hx. fold ne in Hx. unfold E. lia.
+      * apply (ready_sub lo infn p (S E) p (S E) f f1 g Hr); try lia.
+        -- exact I1.
+        -- exact HEI1.
+        -- eapply fout_sub; try exact Hfo; try lia. exact S1c.
+      * exact HE1.
+Qed.
+
+(* ---- the else chain ------------------------------------------------------------------------------------ *)
+Lemma gchain_case n : block_ok n -> chain_ok n -> chain_ok (S n).
+Proof.
+  intros Hb Hch lo infn els w L e m pfx p0 fb g Hnel Hwe Hnfr He Hp Hel Hend Hrange Hr HE.
+  set (entry := mkIC L false (length pfx) m).
+  set (R := Rl p0 (S (im_end m)) lo).
+  pose proof Hr as (HloM & Hsep & Hnde & HI & HEI & HF & Hfo & Hact).
+  assert (HL : p0 <= L < S (im_end m)).
+  { apply Hrange. rewrite Hel. destruct (gmid_pos_hd els L Hnel) as (t & ->). apply in_or_app. right. now left. }
+  destruct els as [|sp c b r|sp b]; [congruence| |].
+  - (* elseif *)
+    destruct Hwe as (Hsp & Hwb & Hwr).
+    cbn [nfr_e] in Hnfr. apply andb_prop in Hnfr. destruct Hnfr as (Hnb & Hnr).
+    cbn [ge app] in Hp. rewrite <- app_assoc in Hp.
+    pose proof (fplaced_nth _ _ _ _ Hp) as Hn0.
+    pose proof (fplaced_tail _ _ _ _ Hp) as Hp1.
+    pose proof (fplaced_app_l _ _ _ _ Hp1) as Hpb.
+    pose proof (fplaced_app_r _ _ _ _ Hp1) as Hpr.
+    cbn [gmid_pos] in Hel. cbn [ge length] in Hend. rewrite app_length in Hend.
+    set (nb := length (gb b)) in *. set (nr := length (ge r)) in *.
+    assert (HEq : im_end m = S L + nb + nr) by lia.
+    assert (Hstep : fstep P L (bkw sp (ACond c)) (w, if_push entry fb, g)
+                    = lift g (step_elseif L c (w, if_push entry fb))).
+    { rewrite fstep_kw by kwn. unfold P0. rewrite (disp_elseif (map down P) TW) by exact Hsp. reflexivity. }
+    rewrite he_elseif. destruct (eval_cond c w) as [v w1] eqn:Ec.
+    assert (Hpop : if_pop L (f_ifstk (if_push entry fb)) = (Some entry, f_ifstk fb)).
+    { cbn. now rewrite Nat.eqb_refl. }
+    assert (Hlen : length (im_else m) = length pfx + S (length (gmid_pos r (S L + nb)))).
+    { rewrite Hel, app_length. reflexivity. }
+    assert (Hsub : forall l, Rl (S L) (S L + nb) lo l -> R l) by (intros l; apply Rl_sub; lia).
+    assert (HnRin : forall l, S L + nb <= l -> l <= im_end m -> ~ Rl (S L) (S L + nb) lo l).
+    { intros l H1 H2 [[H3|H3] _]; [lia|]. destruct Hsep as [Hs|Hs]; lia. }
+    destruct v.
+    + (* this branch is taken *)
+      assert (Htaken : forall x0, p0 <= x0 < S (im_end m) ->
+        fstep1 P (L, (w, if_push entry fb, g)) = Some (S L, (w1, if_push (mkIC x0 true (length pfx) m) fb, g)) ->
+        (forall w' f3, Inv P0 f3 -> gframe (Rl (S L) (S L + nb) lo) (if_push (mkIC x0 true (length pfx) m) fb) f3 ->
+           gframe R fb f3 ->
+           exists f', fruns P (S L + nb, (w', f3, g)) (S (im_end m), (w', f', g)) /\ Inv P0 f' /\ gframe R fb f') ->
+        post (L, (w, if_push entry fb, g)) R (S (im_end m)) fb g (hb ds n b w1)).
+      { intros x0 Hx0 St Hcont.
+        set (f2 := if_push (mkIC x0 true (length pfx) m) fb).
+        assert (Fr2 : gframe R fb f2).
+        { apply (gframe_intro R fb f2 [mkIC x0 true (length pfx) m] []); try reflexivity; try constructor.
+          - split; [apply Rl_in; [exact Hnde|exact Hx0]|reflexivity].
+          - constructor. }
+        assert (Hready2 : ready lo infn (S L) (S L + nb) f2 g).
+        { apply (ready_sub lo infn p0 (S (im_end m)) (S L) (S L + nb) fb f2 g Hr); try lia.
+          - eapply Inv_same; [| | |exact HI]; reflexivity.
+          - eapply EndInv_same; [|exact HEI]. reflexivity.
+          - eapply fout_sub; try exact Hfo; try lia. reflexivity. }
+        pose proof (Hb lo infn b w1 (S L) f2 g Hwb Hnb Hpb Hready2) as IH. fold nb in IH.
+        apply (post_then (L, (w, if_push entry fb, g)) (S L, (w1, f2, g)) (Rl (S L) (S L + nb) lo) R
+                         (S L + nb) (S (im_end m)) fb f2 g);
+          [apply fruns_step; exact St|exact Fr2|exact Hsub|exact IH|exact Hcont]. }
+      destruct (felses_dec r) as [Er|Hr0].
+      * (* last else line: the entry pushed here stays as junk *)
+        assert (Hnr0 : nr = 0) by (unfold nr; rewrite Er; reflexivity).
+        assert (Hlt : (S (length pfx) <? length (im_else m)) = false).
+        { apply Nat.ltb_ge. rewrite Hlen, Er. cbn. lia. }
+        destruct (nth_error (im_else m) 0) as [x0|] eqn:Ex0.
+        2:{ apply nth_error_None in Ex0. rewrite Hlen in Ex0. lia. }
+        assert (Hx0 : p0 <= x0 < S (im_end m)) by (apply Hrange; eapply nth_error_In; eauto).
+        apply (Htaken x0 Hx0).
+        -- eapply fstep1_continue; [exact Hn0|]. rewrite Hstep.
+           unfold step_elseif. rewrite Hpop. cbn [entry ic_passed ic_meta ic_idx]. rewrite Ec, Hlt, Ex0.
+           rewrite set_ifstk_push. reflexivity.
+        -- intros w' f3 I3 F3 F3'. exists f3. split; [|split; [exact I3|exact F3']].
+           assert (HnE : nth_error P (im_end m) = Some (bkw e ANone)).
+           { rewrite Er in Hpr. cbn [ge app] in Hpr. fold nb in Hpr. apply fplaced_nth in Hpr.
+             rewrite HEq, Hnr0, Nat.add_0_r. exact Hpr. }
+           apply fruns_step. replace (S L + nb) with (im_end m) by lia.
+           eapply fstep1_continue; [exact HnE|]. apply fclose_if; [exact He|].
+           rewrite (gf_end _ _ _ F3); [exact HE|]. apply HnRin; lia.
+      * (* another else line follows: it pops the entry and jumps behind the block *)
+        destruct (gmid_pos_hd r (S L + nb) Hr0) as (t & Ht0).
+        assert (Hlt : (S (length pfx) <? length (im_else m)) = true).
+        { apply Nat.ltb_lt. rewrite Hlen, Ht0. cbn. lia. }
+        assert (Ex1 : nth_error (im_else m) (S (length pfx)) = Some (S L + nb)).
+        { rewrite Hel, Ht0. apply nth_error_mid1. }
+        apply (Htaken (S L + nb)); [lia| |].
+        -- eapply fstep1_continue; [exact Hn0|]. rewrite Hstep.
+           unfold step_elseif. rewrite Hpop. cbn [entry ic_passed ic_meta ic_idx]. rewrite Ec, Hlt, Ex1.
+           rewrite set_ifstk_push. reflexivity.
+        -- intros w' f3 I3 F3 F3'.
+           destruct (gf_if _ _ _ F3) as (Jb & Ei & Fi). cbn [if_push f_ifstk set_ifstk] in Ei.
+           destruct (gf_wh _ _ _ F3') as (Jw & Ew & Fw).
+           exists (set_ifstk (f_ifstk fb) f3). split; [|split].
+           ++ apply fruns_step.
+              rewrite (felse_passed r infn lo (S L + nb) [bkw e ANone] w' f3 g Jb (length pfx) m (f_ifstk fb) Hr0 Hwr Hpr Ei).
+              ** reflexivity.
+              ** eapply junk_ne_if; [exact Fi|]. apply HnRin; lia.
+           ++ eapply Inv_same; [| | |exact I3]; reflexivity.
+           ++ apply (gframe_intro R fb _ [] Jw).
+              ** reflexivity.
+              ** constructor.
+              ** cbn. exact Ew.
+              ** exact Fw.
+              ** cbn. exact (gf_for _ _ _ F3').
+              ** intros l Hl. cbn. exact (gf_end _ _ _ F3' l Hl).
+    + (* this branch is not taken *)
+      destruct (felses_dec r) as [Er|Hr0].
+      * rewrite Er. destruct n as [|n']; [exact I|]. rewrite he_nil.
+        assert (Hlt : (S (length pfx) <? length (im_else m)) = false).
+        { apply Nat.ltb_ge. rewrite Hlen, Er. cbn. lia. }
+        exists fb. split; [|split; [exact HI|apply gframe_refl]].
+        apply fruns_step. eapply fstep1_goto; [exact Hn0|]. rewrite Hstep.
+        unfold step_elseif. rewrite Hpop. cbn [entry ic_passed ic_meta ic_idx]. rewrite Ec, Hlt.
+        rewrite set_ifstk_push. reflexivity.
+      * destruct (gmid_pos_hd r (S L + nb) Hr0) as (t & Ht0).
+        assert (Hlt : (S (length pfx) <? length (im_else m)) = true).
+        { apply Nat.ltb_lt. rewrite Hlen, Ht0. cbn. lia. }
+        assert (Ex1 : nth_error (im_else m) (S (length pfx)) = Some (S L + nb)).
+        { rewrite Hel, Ht0. apply nth_error_mid1. }
+        assert (St : fstep1 P (L, (w, if_push entry fb, g))
+                     = Some (S L + nb, (w1, if_push (mkIC (S L + nb) false (S (length pfx)) m) fb, g))).
+        { eapply fstep1_goto; [exact Hn0|]. rewrite Hstep.
+          unfold step_elseif. rewrite Hpop. cbn [entry ic_passed ic_meta ic_idx]. rewrite Ec, Hlt, Ex1.
+          rewrite set_ifstk_push. reflexivity. }
+        eapply post_runs; [apply fruns_step; exact St|].
+        replace (S (length pfx)) with (length (pfx ++ [L])) by (rewrite app_length; cbn; lia).
+        apply (Hch lo infn r w1 (S L + nb) e m (pfx ++ [L]) p0 fb g Hr0 Hwr Hnr He Hpr); auto.
+        rewrite Hel, <- app_assoc. reflexivity.
+  - (* else *)
+    destruct Hwe as (Hsp & Hwb). cbn [nfr_e] in Hnfr.
+    cbn [ge app] in Hp.
+    pose proof (fplaced_nth _ _ _ _ Hp) as Hn0.
+    pose proof (fplaced_tail _ _ _ _ Hp) as Hp1.
+    pose proof (fplaced_app_l _ _ _ _ Hp1) as Hpb.
+    pose proof (fplaced_app_r _ _ _ _ Hp1) as Hpend.
+    cbn [ge length] in Hend.
+    set (nb := length (gb b)) in *.
+    assert (HEq : im_end m = S L + nb) by lia.
+    rewrite he_else.
+    assert (St : fstep1 P (L, (w, if_push entry fb, g)) = Some (S L, (w, fb, g))).
+    { eapply fstep1_continue; [exact Hn0|]. rewrite fstep_kw by kwn.
+      unfold P0. rewrite (disp_else (map down P) TW) by exact Hsp.
+      unfold step_else. cbn [if_push f_ifstk set_ifstk if_pop entry ic_current]. rewrite Nat.eqb_refl.
+      cbn [ic_passed]. fold (if_push entry fb). rewrite set_ifstk_push. reflexivity. }
+    assert (Hready2 : ready lo infn (S L) (S L + nb) fb g).
+    { apply (ready_sub lo infn p0 (S (im_end m)) (S L) (S L + nb) fb fb g Hr); try lia; auto.
+      eapply fout_sub; try exact Hfo; try lia. reflexivity. }
+    pose proof (Hb lo infn b w (S L) fb g Hwb Hnfr Hpb Hready2) as IH. fold nb in IH.
+    apply (post_then (L, (w, if_push entry fb, g)) (S L, (w, fb, g)) (Rl (S L) (S L + nb) lo) R
+                     (S L + nb) (S (im_end m)) fb fb g);
+      [apply fruns_step; exact St|apply gframe_refl|intros l; apply Rl_sub; lia|exact IH|].
+    intros w' f3 I3 F3 F3'. exists f3. split; [|split; [exact I3|exact F3']].
+    apply fruns_step. replace (S L + nb) with (im_end m) by lia.
+    eapply fstep1_continue; [apply fplaced_nth in Hpend; rewrite HEq; exact Hpend|].
+    apply fclose_if; [exact He|].
+    rewrite (gf_end _ _ _ F3); [exact HE|].
+    intros [[H3|H3] _]; [lia|]. destruct Hsep as [Hs|Hs]; lia.
+Qed.
+
+(* ---- while ---------------------------------------------------------------------------------------------- *)
+Lemma gwhile_case n : stmt_ok n -> block_ok n -> forall lo infn sp c b e w p f g,
+  pgs (callable_at lo) infn (GWhile sp c b e) -> nfr_s (GWhile sp c b e) = true ->
+  fplaced P p (gs (GWhile sp c b e)) ->
+  ready lo infn p (p + length (gs (GWhile sp c b e))) f g ->
+  post (p, (w, f, g)) (Rl p (p + length (gs (GWhile sp c b e))) lo)
+       (p + length (gs (GWhile sp c b e))) f g (hs ds (S n) (GWhile sp c b e) w).
+Proof.
+  intros Hs Hb lo infn sp c b e w p f g Hw Hn Hp Hr.
+  pose proof (gwhile_meta_placed P TW (callable_at lo) infn p sp c b e Hp Hw) as Hm. fold P0 in Hm.
+  pose proof (Hs lo infn (GWhile sp c b e)) as Hself.
+  pose proof Hw as (Hsp & He & Hwb). pose proof Hn as Hnb. cbn [nfr_s] in Hnb.
+  assert (Hq : p + length (gs (GWhile sp c b e)) = S (S p + length (gb b))).
+  { cbn [gs length]. rewrite !app_length. cbn [length]. lia. }
+  rewrite Hq in *.
+  set (nb := length (gb b)) in *. set (E := S p + nb) in *. set (m := mkLM p E) in *.
+  set (R := Rl p (S E) lo).
+  pose proof Hr as (HloM & Hsep & Hnde & HI & HE & HF & Hfo & Hact).
+  pose proof Hp as Hp0. cbn [gs] in Hp.
+  pose proof (fplaced_nth _ _ _ _ Hp) as Hn0.
+  pose proof (fplaced_tail _ _ _ _ Hp) as Hp1.
+  pose proof (fplaced_app_l _ _ _ _ Hp1) as Hpb.
+  pose proof (fplaced_app_r _ _ _ _ Hp1) as Hpend. fold nb in Hpend.
+  pose proof (fplaced_nth _ _ _ _ Hpend) as HnE. fold E in HnE.
+  destruct (while_meta_info_ok P0 f p m HI Hm) as (f1 & Hmi & I1 & SS1 & E1).
+  pose proof SS1 as (S1a & S1b & S1c).
+  assert (HRE : R E) by (apply Rl_in; [exact Hnde|lia]).
+  assert (HE1 : aget Nat.eqb E (f_end f1) = Some gen_endwhile_name)
+    by (rewrite E1; apply aget_aset_same).
+  assert (Fr1 : gframe R f f1) by (eapply gframe_meta; eauto).
+  assert (HEI1 : EndInv f1) by (eapply EndInv_gframe; eauto).
+  assert (Hstep : fstep P p (bkw sp (ACond c)) (w, f, g) = lift g (step_while P0 p c (w, f))).
+  { rewrite fstep_kw by kwn. unfold P0. rewrite (disp_while (map down P) TW) by exact Hsp. reflexivity. }
+  rewrite hs_while. destruct (eval_cond c w) as [v w1] eqn:Ec.
+  destruct v.
+  - set (f2 := wh_push m f1).
+    assert (St : fstep1 P (p, (w, f, g)) = Some (S p, (w1, f2, g))).
+    { eapply fstep1_continue; [exact Hn0|]. rewrite Hstep. unfold step_while. rewrite Hmi, Ec. reflexivity. }
+    assert (Fr2 : gframe R f f2).
+    { apply (gframe_intro R f f2 [] [m]).
+      - cbn. exact S1a.
+      - constructor.
+      - cbn. now rewrite S1b.
+      - constructor; [exact HRE|constructor].
+      - cbn. exact S1c.
+      - intros l Hl. cbn. exact (gf_end _ _ _ Fr1 l Hl). }
+    assert (Hready2 : ready lo infn (S p) (S p + nb) f2 g).
+    { apply (ready_sub lo infn p (S E) (S p) (S p + nb) f f2 g Hr); try lia.
+      - eapply Inv_same; [| | |exact I1]; reflexivity.
+      - eapply EndInv_same; [|exact HEI1]. reflexivity.
+      - eapply fout_sub; try exact Hfo; try lia. cbn. exact S1c. }
+    pose proof (Hb lo infn b w1 (S p) f2 g Hwb Hnb Hpb Hready2) as IH. fold nb in IH. fold E in IH.
+    apply (post_bind_in (p, (w, f, g)) (S p, (w1, f2, g)) (Rl (S p) E lo) R E (S E) f f2 g
+                        (hb ds n b w1) (fun w2 => hs ds n (GWhile sp c b e) w2));
+      [apply fruns_step; exact St|exact Fr2|intros l; apply Rl_sub; lia|exact IH|].
+    intros w2 f3 I3 F3 F3'.
+    destruct (gf_wh _ _ _ F3) as (Jw & Ew & Fw). cbn [f2 wh_push f_whstk set_whstk] in Ew.
+    assert (HnRin : ~ Rl (S p) E lo E).
+    { intros [[H3|H3] _]; [lia|]. destruct Hsep as [Hs0|Hs0]; lia. }
+    assert (HE3 : aget Nat.eqb E (f_end f3) = Some gen_endwhile_name).
+    { rewrite (gf_end _ _ _ F3); [exact HE1|exact HnRin]. }
+    set (f4 := wh_push m (set_whstk (f_whstk f1) f3)).
+    assert (St2 : fstep1 P (E, (w2, f3, g)) = Some (p, (w2, f4, g))).
+    { eapply fstep1_goto; [exact HnE|]. rewrite fclose_while by auto.
+      unfold step_endwhile. rewrite Ew, wh_pop_junk.
+      - reflexivity.
+      - eapply junk_ne_wh; [exact Fw|exact HnRin].
+      - reflexivity. }
+    assert (I4 : Inv P0 f4) by (eapply Inv_same; [| | |exact I3]; reflexivity).
+    assert (Fr4 : gframe R f f4).
+    { destruct (gf_if _ _ _ F3') as (Ji & Ei & Fi).
+      apply (gframe_intro R f f4 Ji [m]).
+      - cbn. exact Ei.
+      - exact Fi.
+      - cbn. now rewrite S1b.
+      - constructor; [exact HRE|constructor].
+      - cbn. exact (gf_for _ _ _ F3').
+      - intros l Hl. cbn. exact (gf_end _ _ _ F3' l Hl). }
+    eapply post_pre; [apply fruns_step; exact St2|exact Fr4|].
+    rewrite <- Hq. apply (Hself w2 p f4 g Hw Hn Hp0). rewrite Hq.
+    apply (ready_sub lo infn p (S E) p (S E) f f4 g Hr); try lia.
+    + exact I4.
+    + eapply EndInv_gframe; eauto.
+    + eapply fout_sub; try exact Hfo; try lia. exact (gf_for _ _ _ Fr4).
+  - exists f1. split; [|split; [exact I1|exact Fr1]].
+    apply fruns_step. eapply fstep1_goto; [exact Hn0|]. rewrite Hstep.
+    unfold step_while. rewrite Hmi, Ec. reflexivity.
 Qed.
 End Sim.
